@@ -61,11 +61,13 @@ def cent_markers(g, dicts):
     A = lambda nm: g.arr_term(nm)       # noqa: E731
     mass, dc, fe, sh, mu = A('mass'), A('deltac'), A('fenv'), A('shear'), A('multis')
     S = lambda a, i: z3.Select(a, i)       # noqa: E731
+    M = g.eng.mul_terms                    # products exactly as the interpreter builds them (uninterpreted in opaque_mul contracts)
     L, E, Q = dicts
-    wL = lambda i: NCL(S(mass, i), L['logM_cut'].t + L['Acent'].t * S(dc, i) + L['Bcent'].t * S(fe, i), L['sigma'].t) * L['ic'].t * S(mu, i)      # noqa: E731
-    wE = lambda i: NCE(S(mass, i), E['p_max'].t, E['Q'].t, E['logM_cut'].t + E['Acent'].t * S(dc, i) + E['Bcent'].t * S(fe, i) + E['Ccent'].t * S(sh, i),      # noqa: E731
-                       E['sigma'].t, E['gamma'].t, z3.RealVal(1)) * E['ic'].t * S(mu, i)
-    wQ = lambda i: NCQ(S(mass, i), Q['logM_cut'].t + Q['Acent'].t * S(dc, i) + Q['Bcent'].t * S(fe, i), Q['sigma'].t) * Q['ic'].t * S(mu, i)      # noqa: E731
+    wL = lambda i: M(M(NCL(S(mass, i), L['logM_cut'].t + M(L['Acent'].t, S(dc, i)) + M(L['Bcent'].t, S(fe, i)), L['sigma'].t), L['ic'].t), S(mu, i))      # noqa: E731
+    wE = lambda i: M(M(NCE(S(mass, i), E['p_max'].t, E['Q'].t,      # noqa: E731
+                           E['logM_cut'].t + M(E['Acent'].t, S(dc, i)) + M(E['Bcent'].t, S(fe, i)) + M(E['Ccent'].t, S(sh, i)),
+                           E['sigma'].t, E['gamma'].t, z3.RealVal(1)), E['ic'].t), S(mu, i))
+    wQ = lambda i: M(M(NCQ(S(mass, i), Q['logM_cut'].t + M(Q['Acent'].t, S(dc, i)) + M(Q['Bcent'].t, S(fe, i)), Q['sigma'].t), Q['ic'].t), S(mu, i))      # noqa: E731
     return wL, wE, wQ
 
 
@@ -80,29 +82,30 @@ def sat_markers(g, dicts, ranks_on):
     S = lambda a, i: z3.Select(a, i)       # noqa: E731
     L, E, Q = dicts
     P10 = lambda x: POW(z3.RealVal(10), x)       # noqa: E731
+    M = g.eng.mul_terms                    # products exactly as the interpreter builds them (uninterpreted in opaque_mul contracts)
 
     def deco(D, i):
-        if not ranks_on:
-            return z3.RealVal(1)
-        return 1 + D['s'].t * S(rk, i) + D['s_v'].t * S(rv, i) + D['s_p'].t * S(rp, i) + D['s_r'].t * S(rr, i)
+        return 1 + M(D['s'].t, S(rk, i)) + M(D['s_v'].t, S(rv, i)) + M(D['s_p'].t, S(rp, i)) + M(D['s_r'].t, S(rr, i))
 
     def wL(i):
-        lc = L['logM_cut'].t + L['Acent'].t * S(dc, i) + L['Bcent'].t * S(fe, i)
-        m1 = P10(L['logM1'].t + L['Asat'].t * S(dc, i) + L['Bsat'].t * S(fe, i))
-        return NSL(S(mass, i), lc, P10(lc), m1, L['sigma'].t, L['alpha'].t, L['kappa'].t) * S(w, i) * L['ic'].t * deco(L, i)
+        lc = L['logM_cut'].t + M(L['Acent'].t, S(dc, i)) + M(L['Bcent'].t, S(fe, i))
+        m1 = P10(L['logM1'].t + M(L['Asat'].t, S(dc, i)) + M(L['Bsat'].t, S(fe, i)))
+        base = M(M(NSL(S(mass, i), lc, P10(lc), m1, L['sigma'].t, L['alpha'].t, L['kappa'].t), S(w, i)), L['ic'].t)
+        return M(base, deco(L, i)) if ranks_on else base
 
     def wE(i):
-        lc = E['logM_cut'].t + E['Acent'].t * S(dc, i) + E['Bcent'].t * S(fe, i) + E['Ccent'].t * S(sh, i)
-        ab = E['Asat'].t * S(dc, i) + E['Bsat'].t * S(fe, i)
-        f = lambda m1, al: NSE(S(mass, i), P10(lc), E['kappa'].t, P10(m1), al, E['A_s'].t) * S(w, i) * E['ic'].t      # noqa: E731
+        lc = E['logM_cut'].t + M(E['Acent'].t, S(dc, i)) + M(E['Bcent'].t, S(fe, i)) + M(E['Ccent'].t, S(sh, i))
+        ab = M(E['Asat'].t, S(dc, i)) + M(E['Bsat'].t, S(fe, i))
+        f = lambda m1, al: M(M(NSE(S(mass, i), P10(lc), E['kappa'].t, P10(m1), al, E['A_s'].t), S(w, i)), E['ic'].t)      # noqa: E731
         base = z3.If(S(kc, i) == 1, f(E['logM1_EL'].t + ab, E['alpha_EL'].t),
-                     z3.If(S(kc, i) == 2, f(E['logM1_EE'].t + ab, E['alpha_EE'].t), f(E['logM1'].t + ab + E['Csat'].t * S(sh, i), E['alpha'].t)))
-        return base * deco(E, i)
+                     z3.If(S(kc, i) == 2, f(E['logM1_EE'].t + ab, E['alpha_EE'].t), f(E['logM1'].t + ab + M(E['Csat'].t, S(sh, i)), E['alpha'].t)))
+        return M(base, deco(E, i)) if ranks_on else base
 
     def wQ(i):
-        lc = Q['logM_cut'].t + Q['Acent'].t * S(dc, i) + Q['Bcent'].t * S(fe, i)
-        m1 = P10(Q['logM1'].t + Q['Asat'].t * S(dc, i) + Q['Bsat'].t * S(fe, i))
-        return NSG(S(mass, i), P10(lc), Q['kappa'].t, m1, Q['alpha'].t) * S(w, i) * Q['ic'].t * deco(Q, i)
+        lc = Q['logM_cut'].t + M(Q['Acent'].t, S(dc, i)) + M(Q['Bcent'].t, S(fe, i))
+        m1 = P10(Q['logM1'].t + M(Q['Asat'].t, S(dc, i)) + M(Q['Bsat'].t, S(fe, i)))
+        base = M(M(NSG(S(mass, i), P10(lc), Q['kappa'].t, m1, Q['alpha'].t), S(w, i)), Q['ic'].t)
+        return M(base, deco(Q, i)) if ranks_on else base
     return wL, wE, wQ
 
 
@@ -213,8 +216,10 @@ NAMES = dict(cent=dict(fn='gen_cent', pos='pos', H='len(mass)', mass='mass', id=
                        vel=lambda ac, k: f'hvel[q, {k}] + {ac} * (pvel[q, {k}] - hvel[q, {k}])'))
 
 
-def row_clauses(upto, want, rsd, kind='cent'):
-    """every host q < upto with CODE(q) = c occupies row RK(c, q) of tracer c's arrays with the documented values"""
+def row_clauses(upto, want, rsd, kind='cent', lc=False):
+    """every host q < upto with CODE(q) = c occupies row RK(c, q) of tracer c's arrays with the documented values.
+    lc: light-cone observer at `origin`: with RSD the position moves along the unit line of sight n = (pos - origin)/|pos - origin|
+    by (v . n) * inv_velz2kms (no wrap); box observer: only z moves, by v_z * inv_velz2kms, wrapped into [-L/2, L/2)"""
     N = NAMES[kind]
     cl = []
     for c, nm, p in TR:
@@ -222,26 +227,34 @@ def row_clauses(upto, want, rsd, kind='cent'):
             continue
         ac = f'{N["al"]}_{p}'
         vz = f'({N["vel"](ac, 2)})'
-        zexpr = f'{N["pos"]}[q, 2]'
-        if rsd:
-            x = f'({N["pos"]}[q, 2] + {vz} * inv_velz2kms)'
+        pos = N['pos']
+        xe, ye, zexpr = f'{pos}[q, 0]', f'{pos}[q, 1]', f'{pos}[q, 2]'
+        if rsd and lc:
+            d = [f'({pos}[q, {k}] - origin[{k}])' for k in range(3)]
+            inv = f'(1.0 / sqrt({d[0]} * {d[0]} + {d[1]} * {d[1]} + {d[2]} * {d[2]}))'
+            n = [f'({d[k]} * {inv})' for k in range(3)]
+            v = [f'({N["vel"](ac, k)})' for k in range(3)]
+            proj = f'(inv_velz2kms * ({v[0]} * {n[0]} + {v[1]} * {n[1]} + {v[2]} * {n[2]}))'
+            xe, ye, zexpr = [f'{pos}[q, {k}] + {proj} * {n[k]}' for k in range(3)]
+        elif rsd:
+            x = f'({pos}[q, 2] + {vz} * inv_velz2kms)'
             zexpr = f'ite({x} >= lbox / 2, {x} - lbox, ite({x} < -(lbox / 2), {x} + lbox, {x}))'
-        vals = dict(x=f'{N["pos"]}[q, 0]', y=f'{N["pos"]}[q, 1]', z=zexpr, vx=N['vel'](ac, 0), vy=N['vel'](ac, 1), vz=vz[1:-1],
+        vals = dict(x=xe, y=ye, z=zexpr, vx=N['vel'](ac, 0), vy=N['vel'](ac, 1), vz=vz[1:-1],
                     mass=f'{N["mass"]}[q]', id=f'{N["id"]}[q]')
         for col, v in vals.items():
             cl.append(f'forall(q, 0, {upto}, implies(CODE(q) == {c}, {nm}_{col}[RK({c}, q)] == {v}))')
     return cl
 
 
-def spec_gen_cent(want, rsd, repo=None):
-    return spec_kernel('cent', want, rsd, repo=repo)
+def spec_gen_cent(want, rsd, repo=None, lc=False):
+    return spec_kernel('cent', want, rsd, repo=repo, lc=lc)
 
 
-def spec_gen_sats(want, rsd, ranks_on, repo=None):
-    return spec_kernel('sats', want, rsd, ranks_on, repo=repo)
+def spec_gen_sats(want, rsd, ranks_on, repo=None, lc=False):
+    return spec_kernel('sats', want, rsd, ranks_on, repo=repo, lc=lc)
 
 
-def spec_kernel(kind, want, rsd, ranks_on=False, repo=None):
+def spec_kernel(kind, want, rsd, ranks_on=False, repo=None, lc=False):
     repo = repo or os.environ.get('VV_REPO', '/repo')
     N = NAMES[kind]
     op = tie_op(repo, N['fn'])
@@ -254,6 +267,11 @@ def spec_kernel(kind, want, rsd, ranks_on=False, repo=None):
         others = ('ppos', 'pvel', 'hvel', 'hid', 'weights', 'randoms', 'hdeltac', 'hfenv', 'hshear', 'ranks', 'ranksv', 'ranksp', 'ranksr', 'ranksc', 'keep_cent')
     req = ['Nthread >= 1', 'lbox > 0'] + [f'len({a}) == {H}' for a in others] + \
           [f'forall(q, 0, {H}, randoms[q] > 0)']         # a random of exactly 0 with a disabled tracer is the zero-width-slice corner (noted, not constrained)
+    if lc:
+        # the observer does not sit exactly on a host / particle (the line of sight would be undefined: division by zero in the code)
+        P = N['pos']
+        req.append(f'forall(q, 0, {H}, ({P}[q, 0] - origin[0]) * ({P}[q, 0] - origin[0]) + ({P}[q, 1] - origin[1]) * ({P}[q, 1] - origin[1]) + '
+                   f'({P}[q, 2] - origin[2]) * ({P}[q, 2] - origin[2]) > 0)')
     ts = ['0 <= tid and tid <= Nthread', f'forall(u, 0, Nthread, 0 <= hstart[u] and hstart[u] <= hstart[u + 1] and hstart[u + 1] <= {H})',
           f'hstart[0] == 0 and hstart[Nthread] == {H}']
     keepq = 'forall(q, 0, {upto}, keep[q] == CODE(q))'
@@ -277,8 +295,8 @@ def spec_kernel(kind, want, rsd, ranks_on=False, repo=None):
                     body_asserts={'if randoms[i] ': ['LRG_marker == MKL(i)', 'ELG_marker == MKE(i)', 'QSO_marker == MKQ(i)', 'randoms[i] > 0',
                                                      'unfold CODE(i)', 'unfold RK(1, i)', 'unfold RK(2, i)', 'unfold RK(3, i)']},
                     asserts=['keep[i - 1] == CODE(i - 1)']),
-        2: LoopSpec(invariant=ts + row_clauses('hstart[tid]', want, rsd, kind), writes=wr2),
-        3: LoopSpec(invariant=ts + ['tid < Nthread', 'i >= 0', 'hstart[tid] <= i and i <= hstart[tid + 1]'] + j_inv + row_clauses('i', want, rsd, kind),
+        2: LoopSpec(invariant=ts + row_clauses('hstart[tid]', want, rsd, kind, lc), writes=wr2),
+        3: LoopSpec(invariant=ts + ['tid < Nthread', 'i >= 0', 'hstart[tid] <= i and i <= hstart[tid + 1]'] + j_inv + row_clauses('i', want, rsd, kind, lc),
                     body_asserts={'if keep[i] == 1': fill_hints}),
     }
     ens = [keepq.format(upto=H).replace('keep[q]', 'result[4][q]')] if kind == 'cent' else []
@@ -286,7 +304,7 @@ def spec_kernel(kind, want, rsd, ranks_on=False, repo=None):
         for col in ('x', 'y', 'z', 'vx', 'vy', 'vz', 'mass'):
             ens.append(f'len(result[{c - 1}]["{col}"]) == RK({c}, {H})')
         ens.append(f'len(result[3]["{("LRG", "ELG", "QSO")[c - 1]}"]) == RK({c}, {H})')
-    for cl in row_clauses(H, want, rsd, kind):
+    for cl in row_clauses(H, want, rsd, kind, lc):
         # rewrite array names to the returned dictionaries
         for c, nm, p in TR:
             for col in ('x', 'y', 'z', 'vx', 'vy', 'vz', 'mass'):
@@ -315,11 +333,12 @@ def spec_kernel(kind, want, rsd, ranks_on=False, repo=None):
         tr = lambda v: eng.toreal(eng.tosv(v)).t       # noqa: E731
         for nm, F in fns.items():
             g.fn(nm, (lambda F: lambda *a: SV(F(*[tr(x) for x in a]), 'real'))(F))
-    name = N['fn'] + '[' + '+'.join(n for n, w in zip(('LRG', 'ELG', 'QSO'), want) if w) + f',rsd={rsd}' + (f',ranks={ranks_on}' if kind == 'sats' else '') + ']'
+    name = N['fn'] + '[' + '+'.join(n for n, w in zip(('LRG', 'ELG', 'QSO'), want) if w) + f',rsd={rsd}' + (f',ranks={ranks_on}' if kind == 'sats' else '') + \
+        (',lightcone' if lc else '') + ']'
     if op is None:
         req.append('1 == 0')        # comparison form not recognised: the contract cannot be instantiated (vacuity guard reports it)
     common = dict(LRG_hod_dict=dicts[0], ELG_hod_dict=dicts[1], QSO_hod_dict=dicts[2], rsd=rsd, inv_velz2kms='real', lbox='real',
-                  want_LRG=want[0], want_ELG=want[1], want_QSO=want[2], Nthread='int', origin=None)
+                  want_LRG=want[0], want_ELG=want[1], want_QSO=want[2], Nthread='int', origin='real[3]!ro' if lc else None)
     if kind == 'cent':
         args = dict(pos='real[:,3]!ro', vel='real[:,3]!ro', mass='real[:]!ro', ids='int[:]!ro', multis='real[:]!ro', randoms='real[:]!ro',
                     vdev='real[:,3]!ro', deltac='real[:]!ro', fenv='real[:]!ro', shear='real[:]!ro', **common)
@@ -331,7 +350,7 @@ def spec_kernel(kind, want, rsd, ranks_on=False, repo=None):
                  'ranksc', 'LRG_hod_dict', 'ELG_hod_dict', 'QSO_hod_dict', 'rsd', 'inv_velz2kms', 'lbox', 'Mpart', 'want_LRG', 'want_ELG', 'want_QSO', 'Nthread',
                  'origin', 'keep_cent']
         args = {k: args[k] for k in order}
-    return FnSpec(HOD, N['fn'], prop='C09', name=name, args=args,
+    return FnSpec(HOD, N['fn'], prop='C09', name=name, args=args, opaque_mul=lc,
                   ghosts=ghosts, requires=req, ensures=ens, frame=[], inline=['wrap'], callees=callees,
                   blocks=[dict(stmts=BLOCK, apply=block_apply, note='gstart = running sums over threads of the per-thread counts (cumsum), first row 0')],
                   loops=loops, hints={'N_lrg = ': [f'gstart[Nthread, 0] == RK(1, {H})', f'gstart[Nthread, 1] == RK(2, {H})', f'gstart[Nthread, 2] == RK(3, {H})']})
@@ -341,23 +360,26 @@ SUBSETS = [(True, True, True), (True, False, False), (False, True, False), (Fals
 
 
 def prove_kernels(run, prop, tier, lemmas=True):
-    """gen_cent and gen_sats under contract for tracer subsets x RSD (x ranks); box observer (the light-cone `origin` branch stays bounded)"""
+    """gen_cent and gen_sats under contract for tracer subsets x RSD (x ranks), box observer and light-cone observer"""
     if lemmas:
         prove_lemmas(run)
     T3 = (True, True, True)
     if tier == 'quick':
-        cent = {'C09': [(T3, True), (T3, False), ((False, True, False), True)], 'C10': [(T3, False), ((True, False, True), True)], 'C11': [(T3, True)]}[prop]
-        sats = {'C09': [(T3, True, True), ((False, True, False), False, False)], 'C10': [(T3, False, False)], 'C11': [(T3, True, True)]}[prop]
+        cent = {'C09': [(T3, True, False), (T3, False, False), ((False, True, False), True, False), (T3, True, True)],
+                'C10': [(T3, False, False), ((True, False, True), True, False)], 'C11': [(T3, True, False), (T3, True, True)]}[prop]
+        sats = {'C09': [(T3, True, True, False), ((False, True, False), False, False, False), (T3, True, True, True)],
+                'C10': [(T3, False, False, False)], 'C11': [(T3, True, True, False), (T3, True, True, True)]}[prop]
     else:
-        cent = [(w, r) for w in SUBSETS for r in (True, False)]
-        sats = [(w, r, k) for w in SUBSETS for r in (True, False) for k in (True, False)]
+        cent = [(w, r, False) for w in SUBSETS for r in (True, False)] + [(w, True, True) for w in SUBSETS]
+        sats = [(w, r, k, False) for w in SUBSETS for r in (True, False) for k in (True, False)] + [(w, True, k, True) for w in SUBSETS for k in (True, False)]
         if prop == 'C11':
-            cent, sats = [(T3, True), (T3, False)], [(T3, True, True), (T3, False, False)]
-    for w, r in cent:
-        sp = spec_gen_cent(w, r, run.repo)
+            cent = [(T3, True, False), (T3, False, False), (T3, True, True)]
+            sats = [(T3, True, True, False), (T3, False, False, False), (T3, True, True, True)]
+    for w, r, lc in cent:
+        sp = spec_gen_cent(w, r, run.repo, lc=lc)
         sp.prop = prop
         run.prove(sp)
-    for w, r, k in sats:
-        sp = spec_gen_sats(w, r, k, run.repo)
+    for w, r, k, lc in sats:
+        sp = spec_gen_sats(w, r, k, run.repo, lc=lc)
         sp.prop = prop
         run.prove(sp)
